@@ -867,10 +867,22 @@ class Obs:
     def __pow__(self, y):
         if isinstance(y, Obs):
             return derived_observable(lambda x, **kwargs: x[0] ** x[1], [self, y], man_grad=[y.value * self.value ** (y.value - 1), self.value ** y.value * np.log(self.value)])
+        elif isinstance(y, complex):
+            # x ** (a + ib) = |x| ** a * exp(-b * theta) * exp(i * (a * theta + b * log|x|)), theta = arg(x)
+            theta = 0.0 if self.value > 0 else np.pi
+            log_abs = np.log(abs(self))
+            mag = np.exp(y.real * log_abs - y.imag * theta)
+            phase = y.real * theta + y.imag * log_abs
+            return CObs(mag * np.cos(phase), mag * np.sin(phase))
         else:
             return derived_observable(lambda x, **kwargs: x[0] ** y, [self], man_grad=[y * self.value ** (y - 1)])
 
     def __rpow__(self, y):
+        if isinstance(y, complex):
+            # y ** x = exp(x * log|y|) * exp(i * x * arg(y))
+            mag = np.exp(np.log(abs(y)) * self)
+            phase = np.angle(y) * self
+            return CObs(mag * np.cos(phase), mag * np.sin(phase))
         return derived_observable(lambda x, **kwargs: y ** x[0], [self], man_grad=[y ** self.value * np.log(y)])
 
     def __abs__(self):
